@@ -724,7 +724,9 @@ def oracle_linroll(case, R):
     a = max(np.abs(sig).max(), 1e-300)
     e = np.abs(new - exp).max() / a
     _m(R, "linroll_values/eps", e / EPS)
-    R.check(e <= 64 * EPS, "linroll_not_linear_interpolation",
+    # both sides interpolate on rounded time grids k/srn and i/sr: the position inside an interval carries
+    # eps * t/dt = eps * N, i.e. eps * N * |step| in value (1.45e-14 seen for N = 54 with 64 eps as limit)
+    R.check(e <= (64 + 4 * N) * EPS, "linroll_not_linear_interpolation",
             f"N={N} factor={fac}: {K} samples returned at sr*{fac} (expected (N-1)*factor+1 = {(N - 1) * fac + 1}); "
             f"max deviation from the interpolant at k/srnew = {e:.3g} of the input level; span_ok={span_ok}")
 
